@@ -14,10 +14,13 @@ import (
 )
 
 type OpaqueType struct {
-	Sort   string
-	GoType string // qualified Go type name as written in the contract file
-	T      types.Type
+	Sort     string
+	GoType   string // qualified Go type name as written in the contract file
+	T        types.Type
+	OnDemand bool // active only in functions whose contract says `note opaque <Sort> ...`
 }
+
+var opaqueDeclared = map[string]*OpaqueType{} // by types.TypeString: every declared opaque type
 
 var opaqueMu sync.Mutex
 var opaqueByType = map[string]*OpaqueType{} // key: types.TypeString
@@ -53,9 +56,12 @@ func (e *Engine) registerOpaque() error {
 		if _, ok := t.Underlying().(*types.Struct); !ok {
 			return fmt.Errorf("opaque type %s is not a struct", o.GoType)
 		}
-		ot := &OpaqueType{Sort: o.Sort, GoType: o.GoType, T: t}
+		ot := &OpaqueType{Sort: o.Sort, GoType: o.GoType, T: t, OnDemand: o.OnDemand}
 		opaqueMu.Lock()
-		opaqueByType[types.TypeString(t, nil)] = ot
+		opaqueDeclared[types.TypeString(t, nil)] = ot
+		if !o.OnDemand {
+			opaqueByType[types.TypeString(t, nil)] = ot
+		}
 		opaqueBySort[o.Sort] = ot
 		opaqueMu.Unlock()
 	}
@@ -147,4 +153,29 @@ func opaqueUpdate(st *State, ot *OpaqueType, v string, name string, nv Value) st
 		}
 	}
 	return n
+}
+
+// activateOpaque switches on the on-demand opaque sorts a contract asks for
+// (`note opaque Tbl AA Cod`) and switches the others off. Verification of functions is sequential.
+func activateOpaque(notes []string) {
+	want := map[string]bool{}
+	for _, n := range notes {
+		if strings.HasPrefix(n, "opaque ") {
+			for _, s := range strings.Fields(n)[1:] {
+				want[s] = true
+			}
+		}
+	}
+	opaqueMu.Lock()
+	defer opaqueMu.Unlock()
+	for k, ot := range opaqueDeclared {
+		if !ot.OnDemand {
+			continue
+		}
+		if want[ot.Sort] {
+			opaqueByType[k] = ot
+		} else {
+			delete(opaqueByType, k)
+		}
+	}
 }
